@@ -1,6 +1,6 @@
 (* C09 requests: 900 run a history in the store model, 901 property oracle on the implementation's observations,
    902 run the same history with the writers executed as HEAP PROGRAMS (model/HeapProg.v: exec of prog_of kind),
-   903 the ownership analysis on the eight writer programs and on the variants that break the copy discipline. *)
+   903 the ownership analysis and the assigned-before-read analysis on the eight writer programs and on the variants. *)
 From Coq Require Import List ZArith Bool.
 From PV Require Import lib.Sx lib.Result model.Store model.Iso model.HeapProg spec.SpecIso extract.OrCommon extract.IsoWire.
 Import ListNotations.
@@ -28,7 +28,12 @@ Definition accepted (p : cmd) : bool := match check p [] with Some _ => true | N
 Definition req_check (arg : sx) : sx :=
   SL [of_list of_bool (map (fun k => accepted (prog_of k)) [1; 2; 3; 4; 5; 6; 7; 8]);
       of_list of_bool (map accepted [prog_dfxp_nocopy; prog_dfxp_shallow; prog_sami_nocopy; prog_sami_shallow;
-                                     prog_legacy_merge_first; prog_single_nocopy])].
+                                     prog_legacy_merge_first; prog_single_nocopy]);
+      of_list of_bool (map (fun k => match du (prog_of k) inst_regs with Some _ => true | None => false end)
+                           [1; 2; 3; 4; 5; 6; 7; 8]);
+      of_list of_bool (map (fun p => match du p inst_regs with Some _ => true | None => false end)
+                           [prog_with false W_DFXP; prog_with false W_SAMI; prog_with false W_LEGACY;
+                            prog_with false W_SINGLE; prog_vtt_no_global])].
 
 Definition dispatch (code : Z) (arg : sx) : option sx :=
   match code with
